@@ -29,7 +29,12 @@ def run_item(item):
 
 def main(argv):
     logging.disable(logging.CRITICAL)
-    if "rp2" in sys.modules or any(type(f).__module__.startswith("symx") for f in sys.meta_path):
+    if os.environ.get("VERIF_MUTANT"):
+        # sensitivity self-test: the counterexample of an in-memory mutant is replayed on the real code + that mutation
+        from . import loader, mutants  # pylint: disable=import-outside-toplevel
+
+        loader.install_plain_mutant(mutants.get(os.environ["VERIF_MUTANT"]))
+    elif "rp2" in sys.modules or any(type(f).__module__.startswith("symx") for f in sys.meta_path):
         raise SystemExit("replay must run uninstrumented")
     if argv and argv[0] == "--batch":
         with open(argv[1], encoding="utf-8") as f:
